@@ -4,7 +4,7 @@
    (vm_compute) for the finite range in the statement; C16_partial = what is proved of C16_full. *)
 From Coq Require Import List ZArith QArith Bool Arith Lia.
 From GV Require Import Lib.Tree Lib.Graph16 Lib.PolyRefl16 Model.QCount Model.CliqueEq
-                       Proofs.QCountP Proofs.CliqueEqP.
+                       Proofs.QCountP Proofs.CliqueEqP Proofs.CycleGen.
 Import ListNotations.
 
 (* ------------------------------------------------------------------------------------------------
@@ -117,6 +117,15 @@ Theorem C16_cycle_identity_upto_10 : forall n, (3 <= n <= 10)%nat ->
   forall (u phi : Q), cycle_val n u phi == exact_val (seq 0 n) (cycle_edges n) 0 phi (fun _ => u).
 Proof. exact cycle_identity_upto_10. Qed.
 Print Assumptions C16_cycle_identity_upto_10.
+
+(* ---- GENERAL (growth): the cycle identity for EVERY n >= 3, all rational u and phi — no bound, no reflection.
+   Proof (Proofs/CycleGen.v): edge subsets = boolean masks; the root's component is the leading run of kept
+   edges plus the trailing run (paths hanging off the root on both sides, closed into a cycle); the weighted
+   sums over masks obey first-edge recursions solved in closed form; free edges sum to weight 1. *)
+Theorem C16_cycle_identity_general : forall n, (3 <= n)%nat ->
+  forall (u phi : Q), cycle_val n u phi == exact_val (seq 0 n) (cycle_edges n) 0 phi (fun _ => u).
+Proof. exact cycle_identity_general. Qed.
+Print Assumptions C16_cycle_identity_general.
 
 (* ---- GENERAL: the polynomial the model puts on the wire evaluates, for every valuation of the variables,
    to the code's arithmetic on rationals (so comparing polynomials compares the functions) *)
